@@ -15,7 +15,7 @@ from common import Ctx, Counters, Failure, confirm, main_wrapper, run_workers, l
 
 PID = "C17"
 RULE = ("(a) traced single calls: record sizes (message + newline, so >= 2 bytes) from boundary sets (2, 4095/4096/4097, 8191/8192, 16383/16384/16385, 65536, 131072, "
-        "1048575, +-1) and seeded random sizes x pre-existing file states (absent, empty, no final newline, 1 MiB) x outputs file / "
+        "1048575, +-1) and seeded random sizes x pre-existing file states (absent, empty, no final newline, 1 MiB, path being a symbolic link to the file, dangling link) x outputs file / "
         "file with path template / devtty / devnull; from the syscall log: the log descriptor is opened with O_APPEND and without "
         "O_TRUNC, exactly one data-transferring call is made on it whose size is the whole record, no ftruncate / positional write, and the "
         "file afterwards is old content + record. (b) stress: 2..16 concurrent writers (processes x threads) append uniquely "
@@ -23,7 +23,7 @@ RULE = ("(a) traced single calls: record sizes (message + newline, so >= 2 bytes
         "(a) = record > 4096 bytes or pre-existing content without final newline or file absent; distinct by (size, state, output)")
 
 SIZES = [2, 3, 100, 4094, 4095, 4096, 4097, 8191, 8192, 8193, 16382, 16383, 16384, 16385, 20000, 65535, 65536, 65537, 131072, 500000, 1048574, 1048575]
-STATES = ["absent", "empty", "nonl", "big", "lines"]
+STATES = ["absent", "empty", "nonl", "big", "lines", "symlink", "dangling-symlink"]
 DATA_CALLS = {"write", "writev", "pwrite64", "pwritev", "pwritev2", "sendto", "sendmsg", "sendfile", "splice"}
 # lseek on an O_APPEND descriptor is harmless (stdio's fopen("a") issues one) and therefore allowed
 FORBIDDEN = {"ftruncate", "pwrite64", "pwritev", "truncate", "fallocate"}
@@ -54,15 +54,21 @@ def run_single(os_, size, state, outk, shortwrite=False):
     old = None
     if outk in ("file", "filetpl"):
         old = {"absent": None, "empty": b"", "nonl": b"previous line without newline", "big": b"x" * 1048576 + b"\n",
-               "lines": b"l1\nl2\n"}[state]
-        try:
-            os.unlink(path)
-        except FileNotFoundError:
-            pass
+               "lines": b"l1\nl2\n", "symlink": b"first line\nsecond line\nthird\n", "dangling-symlink": None}[state]
+        target = path
+        for p_ in (path, path + ".target"):
+            try:
+                os.unlink(p_)
+            except FileNotFoundError:
+                pass
+        if state in ("symlink", "dangling-symlink"):
+            # the configured path is a symbolic link to the real log file (e.g. /var/log/x.log -> /data/logs/x.log)
+            target = path + ".target"
+            os.symlink(target, path)
         if old is not None:
-            with open(path, "wb") as f:
+            with open(target, "wb") as f:
                 f.write(old)
-            os.chmod(path, 0o666)
+            os.chmod(target, 0o666)
     ini = gen.render_ini([(b"output", output), (b"message_format", b"%{env:M}"), (b"datasource_message_max_length", b"1048575"),
                           (b"log_message_max_length", b"1048575")])
     ops = []
